@@ -428,6 +428,7 @@ pub fn gen_recorder(rng: &mut Rng, cfg: &GenCfg) -> RecorderSpec {
         sticky: *rng.pick(&[0u8, 0, 2, 5]),
         blank: *rng.pick(&[0u8, 0, 0, 6, 20]),
         idle: false,
+        empty_garbage: false,
     }
 }
 
